@@ -257,7 +257,14 @@ class _Peer:
         self.sent = []
         self.replies = []
 
+    script = ()
+
     def send_message(self, can_id, data, remote=False):
+        if self.script:
+            # canned answers first (used to get a stream object built by its own constructor)
+            r, self.script = self.script[0], self.script[1:]
+            self.client.on_response(self.client.tx_cobid, bytes(r), 0.0)
+            return
         self.sent.append((can_id, data))
         r = sx.fresh_bytes("resp%d" % len(self.sent), 8)
         self.replies.append(r)
@@ -277,8 +284,12 @@ def write_step(nb, sized):
     client, peer = _client_with_peer()
     WS = sx.mod("canopen.sdo.client").WritableStream
     E = _exc()
-    ws = WS.__new__(WS)
-    ws.sdo_client = client
+    peer.script = ([0x60, 0x00, 0x20, 0x00, 0, 0, 0, 0],)
+    ws = WS(client, 0x2000, 0, None, True)
+    if not all(hasattr(ws, a) for a in ("size", "pos", "_toggle", "_exp_header", "_done", "sdo_client")):
+        for m in ("step-ok", "step-rejected"):
+            sx.not_applicable(m, "WritableStream no longer keeps size/pos/_toggle/_exp_header/_done")
+        return
     if sized:
         size = sx.fresh_int("size", 0, 0xFFFFFFFF)
         pos = sx.fresh_int("pos", 0, 0xFFFFFFFF)
@@ -327,8 +338,12 @@ def read_step():
     client, peer = _client_with_peer()
     RS = sx.mod("canopen.sdo.client").ReadableStream
     E = _exc()
-    rs = RS.__new__(RS)
-    rs.sdo_client = client
+    peer.script = ([0x40, 0x00, 0x20, 0x00, 0, 0, 0, 0],)
+    rs = RS(client, 0x2000, 0)
+    if not all(hasattr(rs, a) for a in ("size", "pos", "_toggle", "exp_data", "_done", "sdo_client")):
+        for m in ("read-step-ok", "read-step-rejected"):
+            sx.not_applicable(m, "ReadableStream no longer keeps size/pos/_toggle/exp_data/_done")
+        return
     tog = sx.ite(sx.fresh_bool("tog"), 0x10, 0)
     pos = sx.fresh_int("pos", 0, 0xFFFFFFFF)
     rs._done, rs._toggle, rs.pos, rs.exp_data, rs.size = False, tog, pos, None, None
@@ -536,10 +551,20 @@ def jobs(tier):
             for sl in (1, 3):
                 out.append(dict(func="upload", params=dict(n=n, style="seg-nosize", last="full", odkind="none",
                                                            how="rawall", seg_len=sl)))
-    # buffered reader whose buffer is smaller than one segment (known finding: ValueError)
-    for n in (5, 9):
-        out.append(dict(func="upload", params=dict(n=n, style="seg-size", last="full", odkind="none",
-                                                   how="buf:c:4:3")))
+    # buffered reader whose free space is smaller than one segment (buffer below 7 bytes, or a nearly full larger
+    # buffer): was a defect (ValueError), fixed in 7135432
+    for n in (5, 9, 50):
+        for how in ("buf:c:4:3", "buf:c:2:1", "buf:c:16:15", "buf:c:6:20", "buf:c:100:99"):
+            out.append(dict(func="upload", params=dict(n=n, style="seg-size", last="full", odkind="none", how=how)))
+    out.append(dict(func="upload", params=dict(n=2100, style="seg-size", last="full", odkind="none",
+                                               how="buf:c:1024:1023"), weight=2100))
+    if not q:
+        for b in (2, 3, 5, 6, 7, 8, 13, 14, 15, 16, 64):
+            for c in (1, b - 1, b, b + 1, 2 * b + 3):
+                if c >= 1:
+                    for style in ("seg-size", "seg-nosize"):
+                        out.append(dict(func="upload", params=dict(n=200, style=style, last="empty", odkind="none",
+                                                                   how="buf:c:%d:%d" % (b, c)), weight=200))
     # inductive steps
     for nb in range(0, 10):
         for sized in (True, False):
